@@ -27,6 +27,9 @@ def main():
         tier = "thorough"
     muts = json.load(open(os.path.join(VERIF, "mutants", prop + ".json")))
     results = []
+    # mutants that do not break *this* property (examined by hand): kept as a record of
+    # what the check is not expected to flag; {"equivalent": "<reason>"} in the file
+    why = {m["name"]: m["equivalent"] for m in muts if m.get("equivalent")}
 
     def one(m):
         tmp = tempfile.mkdtemp(prefix="pymbolic-mut.", dir="/var/tmp")
@@ -69,9 +72,15 @@ def main():
     if not only:
         with open(os.path.join(VERIF, "mutants", "results", prop + ".json"), "w") as f:
             json.dump({"property": prop, "tier": tier,
-                       "results": [{"mutant": r[0], "outcome": r[1], "repo_tests": r[2]}
+                       "results": [{"mutant": r[0], "outcome": r[1], "repo_tests": r[2],
+                                    **({"not_a_violation_because": why[r[0]]}
+                                       if r[0] in why and not r[1].startswith("killed")
+                                       else {})}
                                    for r in results]}, f, indent=1)
-    surv = [r for r in results if not r[1].startswith("killed")]
+    surv = [r for r in results if not r[1].startswith("killed") and r[0] not in why]
+    for r in results:
+        if not r[1].startswith("killed") and r[0] in why:
+            print(f"  {r[0]}: survives as declared - {why[r[0]]}")
     print(f"{prop}: {len(results) - len(surv)}/{len(results)} mutants killed")
     # restore evidence/replays polluted by mutant runs is the caller's job
     return 0 if not surv else 1
